@@ -121,9 +121,12 @@ def _events(args):
         if not b:
             continue
         coll, model, R = b
+        # what must come back is fixed before ANY export runs (an export must not be able to alter its source and the
+        # expectation with it)
+        src_by_flavour = {fl: _project(coll, fl) for fl in ("PROKARYOTIC", "EUKARYOTIC")}
         for flavour in ("PROKARYOTIC", "EUKARYOTIC"):
             buf = io.StringIO()
-            src = _project(coll, flavour)  # what must come back is fixed BEFORE the export runs
+            src = src_by_flavour[flavour]
             try:
                 collection_to_genbank([coll], buf, genbank_type=GenbankFlavor[flavour], update_translations=True)
             except Exception as ex:
@@ -145,7 +148,13 @@ def _events(args):
                 if len(parts) > 1:
                     orders.append([strand, [int(p.start) for p in parts]])
                 if f.type == "CDS" and "translation" in q:
-                    nt = f.extract(rec.seq)
+                    # independent splice in biological order, whatever the order in which the parts are listed
+                    # (the listing order on the minus strand is a separate, keyed finding)
+                    from Bio.Seq import Seq
+
+                    ordered = sorted(parts, key=lambda p: int(p.start), reverse=(strand == "-"))
+                    pieces = [rec.seq[int(p.start):int(p.end)] for p in ordered]
+                    nt = Seq("".join(str(x.reverse_complement() if strand == "-" else x) for x in pieces))
                     off = int(q.get("codon_start", ["1"])[0]) - 1
                     nt = nt[off:]
                     nt = nt[:len(nt) - len(nt) % 3]
